@@ -101,7 +101,9 @@ func directedManyChildMaps() *Trace {
 	t := TypeInfo{N: 0}
 	tr.Steps = append(tr.Steps, Step{Op: "new", CID: 1, Sub: "arr", Owner: 1, T: &t})
 	for i := 0; i < 300; i++ {
-		tr.Steps = append(tr.Steps, Step{Op: "a.append", C: 1, V: &VSpec{Map: &CSpec{CID: 10 + i, T: TypeInfo{N: 1}}}})
+		// every child map holds one distinct entry, so that a child decoded with another child's extra data is noticed
+		tr.Steps = append(tr.Steps, Step{Op: "a.append", C: 1, V: &VSpec{Map: &CSpec{CID: 10 + i, T: TypeInfo{N: 1},
+			K: []VSpec{{U: u64p(uint64(1000 + i))}}, V: []VSpec{{U: u64p(uint64(i))}}}}})
 	}
 	tr.Steps = append(tr.Steps, Step{Op: "commit", Flavour: "fc", Workers: 1})
 	return tr
